@@ -77,6 +77,8 @@ impl<T: ArrayValue> Array<T> {
             let replaced = map_keys.insert(key, i, ctx)?;
             to_remove.extend(replaced);
         }
+        // Rows must go from the back, whatever order their keys were replaced in
+        to_remove.sort_unstable();
         for i in to_remove.into_iter().rev() {
             values.remove_row(i);
             for index in &mut map_keys.indices {
@@ -142,6 +144,8 @@ impl<T: ArrayValue> Array<T> {
             let replaced = map_keys.insert(key, i, env.ctx())?;
             to_remove.extend(replaced);
         }
+        // Rows must go from the back, whatever order their keys were replaced in
+        to_remove.sort_unstable();
         for i in to_remove.into_iter().rev() {
             values.remove_row(i);
             for index in &mut map_keys.indices {
